@@ -193,8 +193,11 @@ RNext == \/ \E c \in Conns, tg \in Targets, lv \in ReqLevels : LoggingReq(c, tg,
 RSpec == RInit /\ [][RNext]_rvars
 
 (* the remote half alone (the routing design is model-checked on more connections without the local actions) *)
+EmitRemote(m, lvl) ==     \* Emit without the bookkeeping of the files
+    /\ last' = [kind |-> "emit", to |-> Receivers(m, lvl), mod |-> m, lvl |-> lvl, sinks |-> ModSinks(lvl)]
+    /\ UNCHANGED <<level, alive, lvars>>
 RNextRemote == \/ \E c \in Conns, tg \in Targets, lv \in ReqLevels : LoggingReq(c, tg, lv)
-               \/ \E m \in Mods, lv \in EmitLevels : Emit(m, lv)
+               \/ \E m \in Mods, lv \in EmitLevels : EmitRemote(m, lv)
                \/ \E c \in Conns : Ident(c)
                \/ \E c \in Conns : Disconnect(c)
 RSpecRemote == RInit /\ [][RNextRemote]_rvars
